@@ -443,3 +443,121 @@ theorem headD_append_of_mem {α : Type} (l m : List α) (d a : α) (h : a ∈ l)
   | cons x xs => rfl
 
 end C32
+
+namespace C32
+open Grok
+
+/-! ### the closure computation of `cycleReachable` only finds real walks -/
+
+/-- `b` is reachable from the alias `a` through at least one reference. -/
+inductive Reaches (P : Prims) (aliases : List (Str × Str)) : Str → Str → Prop where
+  | step {a b : Str} : b ∈ succs P aliases a → Reaches P aliases a b
+  | trans {a b c : Str} : b ∈ succs P aliases a → Reaches P aliases b c → Reaches P aliases a c
+
+theorem addNew_mem {S xs : List Str} {x : Str} (h : x ∈ addNew S xs) : x ∈ S ∨ x ∈ xs := by
+  unfold addNew at h
+  induction xs generalizing S with
+  | nil => left; simpa using h
+  | cons y ys ih =>
+    simp only [List.foldl_cons] at h
+    rcases ih h with h' | h'
+    · split at h'
+      · exact Or.inl h'
+      · rcases List.mem_append.mp h' with h'' | h''
+        · exact Or.inl h''
+        · right; simp at h''; simp [h'']
+    · right; exact List.mem_cons_of_mem _ h'
+
+theorem closeStep_mem {P : Prims} {aliases : List (Str × Str)} {S : List Str} {x : Str}
+    (h : x ∈ closeStep P aliases S) : x ∈ S ∨ ∃ a ∈ S, x ∈ succs P aliases a := by
+  unfold closeStep at h
+  have gen : ∀ (l acc : List Str), x ∈ l.foldl (fun acc a => addNew acc (succs P aliases a)) acc →
+      x ∈ acc ∨ ∃ a ∈ l, x ∈ succs P aliases a := by
+    intro l
+    induction l with
+    | nil => intro acc h; left; simpa using h
+    | cons y ys ih =>
+      intro acc h
+      simp only [List.foldl_cons] at h
+      rcases ih _ h with h' | ⟨a, ha, hx⟩
+      · rcases addNew_mem h' with h'' | h''
+        · exact Or.inl h''
+        · exact Or.inr ⟨y, by simp, h''⟩
+      · exact Or.inr ⟨a, List.mem_cons_of_mem _ ha, hx⟩
+  exact gen S S h
+
+theorem closure_mem {P : Prims} {aliases : List (Str × Str)} : ∀ (n : Nat) (S : List Str) (b : Str),
+    b ∈ closure P aliases n S → b ∈ S ∨ ∃ s ∈ S, Reaches P aliases s b := by
+  intro n
+  induction n with
+  | zero => intro S b h; left; simpa [closure] using h
+  | succ n ih =>
+    intro S b h
+    simp only [closure] at h
+    rcases ih _ _ h with h' | ⟨s, hs, hr⟩
+    · rcases closeStep_mem h' with h'' | ⟨a, ha, hx⟩
+      · exact Or.inl h''
+      · exact Or.inr ⟨a, ha, .step hx⟩
+    · rcases closeStep_mem hs with h'' | ⟨a, ha, hx⟩
+      · exact Or.inr ⟨s, h'', hr⟩
+      · exact Or.inr ⟨a, ha, .trans hx hr⟩
+
+theorem succs_lookup {P : Prims} {aliases : List (Str × Str)} {a b : Str} (h : b ∈ succs P aliases a) :
+    ∃ d, lookupAlias aliases a = some d ∧ b ∈ refs P aliases d := by
+  unfold succs at h
+  split at h
+  · rename_i d hd; exact ⟨d, hd, h⟩
+  · cases h
+
+theorem walk_of_reaches {P : Prims} {aliases : List (Str × Str)} {a b : Str} (h : Reaches P aliases a b) :
+    ∃ d w, lookupAlias aliases a = some d ∧ Walk P aliases d w ∧ b ∈ w := by
+  induction h with
+  | step hb =>
+    obtain ⟨d, hd, hbd⟩ := succs_lookup hb
+    exact ⟨d, [_], hd, .one hbd, by simp⟩
+  | trans hb _ ih =>
+    obtain ⟨d, hd, hbd⟩ := succs_lookup hb
+    obtain ⟨d', w', hd', hw', hc⟩ := ih
+    exact ⟨d, _ :: w', hd, .cons hbd hd' hw', List.mem_cons_of_mem _ hc⟩
+
+/-- a walk that ends at `a` can be continued by a walk that starts in the definition of `a`. -/
+theorem walk_append {P : Prims} {aliases : List (Str × Str)} {text : Str} {w1 : List Str}
+    (h1 : Walk P aliases text w1) :
+    ∀ {a da : Str} {w2 : List Str}, w1.getLast? = some a → lookupAlias aliases a = some da →
+      Walk P aliases da w2 → Walk P aliases text (w1 ++ w2) := by
+  induction h1 with
+  | one ha =>
+    intro a da w2 hl hda h2
+    simp at hl; subst hl
+    exact .cons ha hda h2
+  | @cons text x d w hx hd hw ih =>
+    intro a da w2 hl hda h2
+    have hl' : w.getLast? = some a := by
+      cases w with
+      | nil => cases hw
+      | cons y ys => simpa [List.getLast?_cons_cons] using hl
+    exact .cons hx hd (ih hl' hda h2)
+
+/-- a walk can be cut at the first occurrence of one of its names. -/
+theorem walk_prefix_to {P : Prims} {aliases : List (Str × Str)} {text : Str} {w : List Str}
+    (h : Walk P aliases text w) : ∀ {b : Str}, b ∈ w →
+      ∃ w', Walk P aliases text w' ∧ w'.getLast? = some b := by
+  induction h with
+  | @one text a ha =>
+    intro b hb
+    simp at hb; subst hb
+    exact ⟨[b], .one ha, rfl⟩
+  | @cons text x d w hx hd hw ih =>
+    intro b hb
+    rcases List.mem_cons.mp hb with rfl | hb'
+    · exact ⟨[b], .one hx, rfl⟩
+    · obtain ⟨w', hw', hl⟩ := ih hb'
+      refine ⟨x :: w', .cons hx hd hw', ?_⟩
+      cases w' with
+      | nil => cases hw'
+      | cons y ys => simpa [List.getLast?_cons_cons] using hl
+
+theorem getLast?_mem {l : List Str} {a : Str} (h : l.getLast? = some a) : a ∈ l := by
+  exact List.mem_of_getLast? h
+
+end C32
